@@ -359,6 +359,31 @@ example : ctxConsistent ⟨false, false, true, true, false, false⟩ = true ∧
     externTlsRegion ⟨false, false, true, true, false, false⟩ = false ∧
     addrForm ⟨false, false, true, true, false, false⟩ = some .tlsGD := by decide
 
+/-- **C15_addr_table for the repaired ladder (full statement, no region).**  With the candidate repair of
+    C15-extern-tls-local-exec (`genAddrVarFixed`: in non-PIC code local exec only for a thread-local object the unit
+    defines, initial exec `mov x@gottpoff(%rip), %rax; add %fs:0, %rax` otherwise) every consistent context gets an address
+    form that is valid for its entity and code model: `C15_addr_table_Statement` with `addrFormFixed` for `addrForm`.
+    `externTlsRegion` is defined through the regenerated ladder (the cell must actually choose local exec), so once the repair
+    is in /repo the region of `C15_addr_table_partial` is empty without any edit here (`C15_addr_table_region_fixed`). -/
+theorem C15_addr_table_fixed :
+    ∀ c : VarCtx, ctxConsistent c = true → ∃ f, addrFormFixed c = some f ∧ validForm (refCtxOf c) f = true := by
+  intro ⟨a, b, c, d, e, f⟩
+  cases a <;> cases b <;> cases c <;> cases d <;> cases e <;> cases f <;> decide
+
+/-- the region of the known finding is read off the ladder: whenever the regenerated ladder agrees with the repaired
+    one, no context lies in `externTlsRegion` -/
+theorem C15_addr_table_region_fixed (h : ∀ c : VarCtx, addrForm c = addrFormFixed c) :
+    ∀ c : VarCtx, externTlsRegion c = false := by
+  intro ⟨a, b, c, d, e, f⟩
+  simp only [externTlsRegion, h]
+  cases a <;> cases b <;> cases c <;> cases d <;> cases e <;> cases f <;> decide
+
+/-- non-vacuity: the repaired ladder differs from the present one exactly in the cell of the finding (non-PIC,
+    thread-local, not defined by the unit), where it chooses initial exec -/
+example : addrFormFixed ⟨false, false, false, true, false, false⟩ = some .tlsIE ∧
+    addrFormFixed ⟨false, false, false, true, false, true⟩ = some .tlsLE ∧
+    validForm (refCtxOf ⟨false, false, false, true, false, false⟩) .tlsIE = true := by decide
+
 /-! ### the symbol table -/
 
 /-- **C15_symbols (full statement).**  For every valid declaration sequence and both `-fcommon` settings the
